@@ -52,6 +52,7 @@ type c11Run struct {
 	sourceGone         bool               // the source dataset of the focused copy job has been deleted (variant "source disappears")
 	oldAfterGone       int                // deliveries holding entities of the deleted incarnation since then
 	everTransform      map[string]bool    // job ids that have a transform in some definition of the scenario
+	workersLive        int                // transform workers that have taken their chunk and not yet reported back
 	tokReqs            int                // requests to the source that stamps every answer with a new token
 	tokByRun           map[uint64]int     // ... per goroutine asking
 }
@@ -378,14 +379,27 @@ func (r *c11Run) installHooks() {
 			}
 			r.mu.Unlock()
 		}
+		if name == "transform.worker.done" {
+			r.mu.Lock()
+			r.workersLive--
+			r.mu.Unlock()
+		}
 	}
 	hooks.onFaultOn = func(owner any, name string, subject any, hit int64) error {
 		// anything that calls into the hub (and may park at a hook there) happens before the harness lock is taken
+		gid := curGid()
+		// whether a kill of this run had returned when the run arrived here: expanding the ids below goes through the
+		// hub's namespace lock and may park the run, and a kill that lands then is not one the run could have seen
+		r.mu.Lock()
+		killedOnArrival := false
+		if rec := r.runOf[gid]; rec != nil {
+			killedOnArrival = rec.killed
+		}
+		r.mu.Unlock()
 		var sinkIDs []string
 		if name == "sink.dataset" && (len(r.rejectSuffix) > 0 || r.Sc.Knob("dropOracle", 0) == 1) {
 			sinkIDs = entIDs(r.H, subject)
 		}
-		gid := curGid()
 		r.mu.Lock()
 		defer r.mu.Unlock()
 		switch name {
@@ -424,6 +438,20 @@ func (r *c11Run) installHooks() {
 				return nil
 			}
 			r.ev("end %s", id)
+			if r.workersLive > 0 && r.everTransform[id] {
+				// the transform workers of a batch belong to the run that started them; when the run gives its slot back
+				// (the next run of the job may start) none of them is still at work. Judged when no other job with a
+				// transform is running
+				others := 0
+				for oid, n := range r.active {
+					if oid != id && n > 0 && r.everTransform[oid] {
+						others++
+					}
+				}
+				if others == 0 {
+					r.fail(viol("C11", "overlap", "transform-workers-outlive-their-run", "the run of job %s gives its slot back while %d of its transform workers are still at work on their chunks", id, r.workersLive))
+				}
+			}
 			if rec := r.runOf[gid]; rec != nil && rec.killed && time.Since(rec.killedAt) > 5*time.Minute {
 				r.fail(viol("C11", "kill", "killed-run-lingers", "job %s was killed while its run (started %s) held its slot; the run gave the slot back %s of simulated time after the kill had returned", id, rec.start.Format(time.RFC3339Nano), time.Since(rec.killedAt).Round(time.Second)))
 			}
@@ -439,6 +467,10 @@ func (r *c11Run) installHooks() {
 				r.resulted[id]++
 			}
 		case "sink.dataset", "transform.batch":
+			if name == "transform.batch" && r.runOf[gid] == nil {
+				r.workersLive++ // (in a worker goroutine: the parallel path of the incremental pipeline)
+				r.Stats["transform_worker_chunks"]++
+			}
 			if rec := r.runOf[gid]; rec != nil {
 				// the pipeline looks at the run's context before it hands a batch to the transform or, without one, to
 				// the sink; nothing yields between that look and this hook. A batch that starts after a kill of the
@@ -451,7 +483,7 @@ func (r *c11Run) installHooks() {
 				if name == "sink.dataset" {
 					rec.readSince = false
 				}
-				if starts && rec.killed {
+				if starts && killedOnArrival {
 					r.fail(viol("C11", "kill", "kill-ignored", "job %s was killed while its run (started %s) held its slot; after the kill had returned the run went on and handed another batch to its %s", rec.id, rec.start.Format(time.RFC3339Nano), strings.SplitN(name, ".", 2)[0]))
 				}
 			}
